@@ -199,6 +199,18 @@ theorem Steps.mono {g : Graph} {s0 s : St} (h : Steps g s0 s) (y : Nat)
 theorem Steps.len {g : Graph} {s0 s : St} (h : Steps g s0 s) : s.status.length = s0.status.length := by
   obtain ⟨ws, T⟩ := h.trace; exact T.len_eq
 
+/-- an object that is not pending is never touched -/
+theorem Steps.keep {g : Graph} {s0 s : St} (h : Steps g s0 s) (y : Nat)
+    (hy : ¬ Pending (statusOf s0.status y)) : statusOf s.status y = statusOf s0.status y := by
+  obtain ⟨ws, T⟩ := h.trace
+  rcases T.status_cases y with h | ⟨hp, _, _⟩
+  · exact h
+  · exact absurd hp hy
+
+theorem Steps.keep_not_pending {g : Graph} {s0 s : St} (h : Steps g s0 s) (y : Nat)
+    (hy : ¬ Pending (statusOf s0.status y)) : ¬ Pending (statusOf s.status y) := by
+  rw [h.keep y hy]; exact hy
+
 /-! ### what `save`, `saveRefs`, `saveQueue` do when they succeed -/
 
 /-- `dependent_objects` is duplicate-free and within range -/
@@ -215,6 +227,8 @@ structure SavePost (g : Graph) (x : Nat) (dep : Option (List Nat)) (s s' : St) (
   dsub : ∀ z ∈ dep.getD [], z ∈ d'
   dlen : (dep.getD []).length ≤ d'.length
   dgood : DGood s.status.length (dep.getD []) → DGood s.status.length d'
+  /-- what the call appended to `dependent_objects` has been saved -/
+  dnew : ∀ z ∈ d', z ∉ dep.getD [] → ¬ Pending (statusOf s'.status z)
 
 def RecSpec (g : Graph) (rec : Nat → List Nat → St → Except Err (St × List Nat)) : Prop :=
   ∀ y d s s' d', statusOf s.status y = .created → rec y d s = .ok (s', d') → SavePost g y (some d) s s' d'
@@ -223,14 +237,15 @@ theorem saveRefs_spec {g : Graph} {rec : Nat → List Nat → St → Except Err 
     ∀ (rs : List Ref) (d : List Nat) (s s' : St) (d' : List Nat), saveRefs rec rs d s = .ok (s', d') →
       Steps g s s' ∧ (∀ z ∈ d, statusOf s'.status z = statusOf s.status z)
       ∧ (∀ r ∈ rs, statusOf s'.status r.target ≠ .created)
-      ∧ (∀ z ∈ d, z ∈ d') ∧ d.length ≤ d'.length ∧ (DGood s.status.length d → DGood s.status.length d') := by
+      ∧ (∀ z ∈ d, z ∈ d') ∧ d.length ≤ d'.length ∧ (DGood s.status.length d → DGood s.status.length d')
+      ∧ (∀ z ∈ d', z ∉ d → ¬ Pending (statusOf s'.status z)) := by
   intro rs
   induction rs with
   | nil =>
     intro d s s' d' h
     simp [saveRefs] at h
     obtain ⟨rfl, rfl⟩ := h
-    exact ⟨Steps.refl _, fun _ _ => rfl, by simp, fun _ h => h, Nat.le_refl _, fun h => h⟩
+    exact ⟨Steps.refl _, fun _ _ => rfl, by simp, fun _ h => h, Nat.le_refl _, fun h => h, fun z h1 h2 => absurd h1 h2⟩
   | cons r rs ih =>
     intro d s s' d' h
     simp only [saveRefs] at h
@@ -242,10 +257,10 @@ theorem saveRefs_spec {g : Graph} {rec : Nat → List Nat → St → Except Err 
         obtain ⟨s1, d1⟩ := p
         simp only [hr] at h
         have P := hrec _ _ _ _ _ hc hr
-        obtain ⟨hst, hfr, hall, hsub, hlen, hdg⟩ := ih d1 s1 s' d' h
+        obtain ⟨hst, hfr, hall, hsub, hlen, hdg, hnew⟩ := ih d1 s1 s' d' h
         have hnot : r.target ∉ d := by simpa using P.notin (Or.inl hc)
         have hl1 : s1.status.length = s.status.length := P.steps.len
-        refine ⟨P.steps.trans hst, ?_, ?_, ?_, ?_, ?_⟩
+        refine ⟨P.steps.trans hst, ?_, ?_, ?_, ?_, ?_, ?_⟩
         · intro z hz
           have hz1 : z ∈ d1 := P.dsub z (by simpa using hz)
           rw [hfr z hz1]
@@ -260,9 +275,13 @@ theorem saveRefs_spec {g : Graph} {rec : Nat → List Nat → St → Except Err 
         · intro hg
           have := P.dgood (by simpa using hg)
           rw [← hl1]; exact hdg (hl1 ▸ this)
+        · intro z hz hzd
+          by_cases hz1 : z ∈ d1
+          · exact hst.keep_not_pending z (P.dnew z hz1 (by simpa using hzd))
+          · exact hnew z hz hz1
     · simp only [hc, if_false] at h
-      obtain ⟨hst, hfr, hall, hsub, hlen, hdg⟩ := ih d s s' d' h
-      refine ⟨hst, hfr, ?_, hsub, hlen, hdg⟩
+      obtain ⟨hst, hfr, hall, hsub, hlen, hdg, hnew⟩ := ih d s s' d' h
+      refine ⟨hst, hfr, ?_, hsub, hlen, hdg, hnew⟩
       intro r' hr'
       rcases List.mem_cons.mp hr' with rfl | hr'
       · exact hst.mono _ hc
@@ -303,7 +322,7 @@ theorem save_spec (g : Graph) : ∀ (fuel x : Nat) (dep : Option (List Nat)) (s 
           obtain ⟨rfl, rfl⟩ := h
           have hrec : RecSpec g (fun y d' s' => save g fuel y (some d') s') := by
             intro y d s s' d' _ hy; exact ih y (some d) s s' d' hy
-          obtain ⟨hst, hfr, hall, hsub, hlen, hdg⟩ := saveRefs_spec hrec _ _ _ _ _ hr
+          obtain ⟨hst, hfr, hall, hsub, hlen, hdg, hnew⟩ := saveRefs_spec hrec _ _ _ _ _ hr
           have hx1 : statusOf s1.status x = statusOf s.status x := hfr x (by simp)
           have hl1 : s1.status.length = s.status.length := hst.len
           have hstep : Steps g s1 (writeObj x (statusOf s.status x) s1) := by
@@ -331,7 +350,15 @@ theorem save_spec (g : Graph) : ∀ (fuel x : Nat) (dep : Option (List Nat)) (s 
               · intro z hz
                 rcases List.mem_append.mp hz with hz | hz
                 · exact hg.2 z hz
-                · simp at hz; subst hz; exact hxlt }
+                · simp at hz; subst hz; exact hxlt
+            dnew := by
+              intro z hz hzd
+              by_cases hzx : z = x
+              · subst hzx
+                rw [statusOf_writeObj hp]; simp only [hl1, hxlt, and_self, if_true]
+                exact savedOf_not_pending hp
+              · have : z ∉ dep.getD [] ++ [x] := by simp [hzd, hzx]
+                exact hstep.keep_not_pending z (hnew z hz this) }
     · simp only [hcm, if_false] at h
       by_cases hd : statusOf s.status x = .markedToDelete
       · simp [hd] at h
@@ -353,7 +380,8 @@ theorem save_spec (g : Graph) : ∀ (fuel x : Nat) (dep : Option (List Nat)) (s 
           notin := fun h => absurd h hcm
           dsub := fun z hz => hz
           dlen := Nat.le_refl _
-          dgood := fun h => h }
+          dgood := fun h => h
+          dnew := fun z h1 h2 => absurd h1 h2 }
       · simp [hd] at h
 
 /-- after a successful `save`, the object counts as written -/
@@ -367,6 +395,13 @@ theorem Trace.written_of_saved {g : Graph} {s0 s : St} {ws : List Write} (T : Tr
 
 theorem written_iff (s : St) (x : Nat) : written s x = true ↔ ∃ w ∈ s.out, w.obj? = some x := by
   simp [written, List.any_eq_true]
+
+theorem written_mono {g : Graph} {a b : St} (hab : Steps g a b) (x : Nat) (hw : written a x = true) :
+    written b x = true := by
+  obtain ⟨ws, T⟩ := hab.trace
+  rw [written_iff] at hw ⊢
+  obtain ⟨w, hw, hx⟩ := hw
+  exact ⟨w, by rw [T.out_eq]; exact List.mem_append_left _ hw, hx⟩
 
 /-- result of a successful `saveQueue`: a step sequence after which every object of the queue has been written -/
 theorem saveQueue_spec (g : Graph) (fuel : Nat) : ∀ (q : List (Option Nat)) (s s' : St),
@@ -419,5 +454,314 @@ theorem saveQueue_spec (g : Graph) (fuel : Nat) : ∀ (q : List (Option Nat)) (s
             rw [written_iff]
             exact ⟨_, by rw [T.out_eq]; exact List.mem_append_right _ (T.written_of_saved P.pend P.saved), stmtOf_obj _ _⟩
           · exact hall y hy
+
+/-! ### the failing runs: fuel is never exhausted, `badStatus` only for a malformed queue, a reported cycle is real -/
+
+theorem filter_split (n : Nat) (l : List Nat) :
+    l.length = (l.filter (fun z => !(z == n))).length + (l.filter (fun z => z == n)).length := by
+  induction l with
+  | nil => rfl
+  | cons a l ih =>
+    simp only [List.filter_cons]
+    by_cases ha : (a == n) = true
+    · simp only [ha, Bool.not_true, if_true, List.length_cons]; simp; omega
+    · simp only [ha, Bool.not_false, if_true, List.length_cons]; simp; omega
+
+/-- pigeonhole: a duplicate-free list of numbers below `n` has at most `n` entries -/
+theorem nodup_bound : ∀ (n : Nat) (l : List Nat), l.Nodup → (∀ z ∈ l, z < n) → l.length ≤ n := by
+  intro n
+  induction n with
+  | zero =>
+    intro l _ h
+    cases l with
+    | nil => simp
+    | cons a l => exact absurd (h a (by simp)) (by omega)
+  | succ n ih =>
+    intro l hn h
+    have h1 : (l.filter (fun z => !(z == n))).length ≤ n := by
+      apply ih
+      · exact hn.sublist List.filter_sublist
+      · intro z hz
+        simp at hz
+        have := h z hz.1
+        omega
+    have h2 := filter_split n l
+    have h3 : (l.filter (· == n)).length ≤ 1 := by
+      rw [← List.count_eq_length_filter]
+      exact List.nodup_iff_count.mp hn n
+    omega
+
+def Unsaved (st : Status) : Prop := st = .created ∨ st = .modified
+
+/-- `a` carries a reference (one that its statement writes) to the still unsaved object `b` -/
+def EdgeS (g : Graph) (st : List Status) (a b : Nat) : Prop :=
+  ∃ r ∈ attrsToCheck g (statusOf st a) a, r.target = b ∧ statusOf st b = .created
+
+def EdgeIn (g : Graph) (st : List Status) (d : List Nat) (a b : Nat) : Prop := a ∈ d ∧ EdgeS g st a b
+
+/-- every unsaved entry of `dependent_objects` leads to the object about to be saved -/
+def Chain (g : Graph) (st : List Status) (d : List Nat) (y : Nat) : Prop :=
+  ∀ z ∈ d, Unsaved (statusOf st z) → Relation.TransGen (EdgeIn g st d) z y
+
+theorem transGen_mono {α : Type} {r r' : α → α → Prop} (h : ∀ a b, r a b → r' a b) {a b : α}
+    (p : Relation.TransGen r a b) : Relation.TransGen r' a b := by
+  induction p with
+  | single e => exact .single (h _ _ e)
+  | tail _ e ih => exact .tail ih (h _ _ e)
+
+theorem attrs_nonempty_unsaved {g : Graph} {st : Status} {x : Nat} {r : Ref} (h : r ∈ attrsToCheck g st x) :
+    Unsaved st := by
+  cases st <;> simp [attrsToCheck] at h <;> simp [Unsaved]
+
+/-- an edge of a later state is an edge of the earlier state -/
+theorem EdgeS.back {g : Graph} {s0 s : St} (h : Steps g s0 s) {a b : Nat} (e : EdgeS g s.status a b) :
+    EdgeS g s0.status a b := by
+  obtain ⟨r, hr, ht, hc⟩ := e
+  obtain ⟨ws, T⟩ := h.trace
+  have ha : statusOf s.status a = statusOf s0.status a := by
+    rcases T.status_cases a with h | ⟨hp, hs, _⟩
+    · exact h
+    · have hu := attrs_nonempty_unsaved hr
+      rw [hs] at hu
+      rcases hp with hp | hp | hp <;> rw [hp] at hu <;> simp [savedOf, Unsaved] at hu
+  have hb : statusOf s0.status b = .created := by
+    rcases T.status_cases b with h | ⟨hp, hs, _⟩
+    · rw [← h]; exact hc
+    · exact absurd (hs ▸ hc) (savedOf_ne_created hp)
+  exact ⟨r, ha ▸ hr, ht, hb⟩
+
+/-- a path inside `d` survives when the objects of `d` and its end point keep their status -/
+theorem chain_transfer {g : Graph} {st st' : List Status} {d d' : List Nat}
+    (hkeep : ∀ a ∈ d, statusOf st' a = statusOf st a) (hsub : ∀ a ∈ d, a ∈ d') {z y : Nat}
+    (hy : statusOf st' y = statusOf st y)
+    (p : Relation.TransGen (EdgeIn g st d) z y) : Relation.TransGen (EdgeIn g st' d') z y := by
+  induction p with
+  | @single b e =>
+    obtain ⟨hz, r, hr, ht, hc⟩ := e
+    exact .single ⟨hsub z hz, r, by rw [hkeep z hz]; exact hr, ht, by rw [hy]; exact hc⟩
+  | @tail b c _ e ih =>
+    obtain ⟨hb, r, hr, ht, hc⟩ := e
+    have hb' := hkeep b hb
+    exact .tail (ih hb') ⟨hsub b hb, r, by rw [hb']; exact hr, ht, by rw [hy]; exact hc⟩
+
+/-- what a failing call may report -/
+structure ErrConcl (g : Graph) (s : St) (top : Option Nat) (e : Err) : Prop where
+  fuel : e ≠ .outOfFuel
+  bad : ∀ y, e = .badStatus y → top = some y ∧ ¬ Pending (statusOf s.status y)
+  cyc : ∀ c, e = .cycle c → ∃ y, Relation.TransGen (EdgeS g s.status) y y
+
+theorem ErrConcl.back {g : Graph} {s0 s : St} (h : Steps g s0 s) {e : Err} (c : ErrConcl g s none e) :
+    ErrConcl g s0 none e where
+  fuel := c.fuel
+  bad := fun y hy => by have := (c.bad y hy).1; simp at this
+  cyc := fun ch hc => by
+    obtain ⟨y, p⟩ := c.cyc ch hc
+    exact ⟨y, transGen_mono (fun a b e => EdgeS.back h e) p⟩
+
+def RecErr (g : Graph) (fuel : Nat) (rec : Nat → List Nat → St → Except Err (St × List Nat)) : Prop :=
+  ∀ y d s e, statusOf s.status y = .created → DGood s.status.length d → fuel + d.length ≥ s.status.length + 1 →
+    Chain g s.status d y → rec y d s = .error e → ErrConcl g s none e
+
+/-- the loop over the references of `x` (which is on `dependent_objects`) -/
+theorem saveRefs_err {g : Graph} {fuel : Nat} {rec : Nat → List Nat → St → Except Err (St × List Nat)}
+    (hrec : RecSpec g rec) (herr : RecErr g fuel rec) (x : Nat) :
+    ∀ (rs : List Ref) (d : List Nat) (s : St) (e : Err),
+      DGood s.status.length d → fuel + d.length ≥ s.status.length + 1 → x ∈ d →
+      (∀ r ∈ rs, r ∈ attrsToCheck g (statusOf s.status x) x) →
+      (∀ z ∈ d, Unsaved (statusOf s.status z) → z = x ∨ Relation.TransGen (EdgeIn g s.status d) z x) →
+      saveRefs rec rs d s = .error e → ErrConcl g s none e := by
+  intro rs
+  induction rs with
+  | nil => intro d s e _ _ _ _ _ h; simp [saveRefs] at h
+  | cons r rs ih =>
+    intro d s e hg hf hx hrs hch h
+    simp only [saveRefs] at h
+    by_cases hc : statusOf s.status r.target = .created
+    · simp only [hc, if_true] at h
+      have hchain : Chain g s.status d r.target := by
+        intro z hz hu
+        have hedge : EdgeIn g s.status d x r.target := ⟨hx, r, hrs r (by simp), rfl, hc⟩
+        rcases hch z hz hu with rfl | p
+        · exact .single hedge
+        · exact .tail p hedge
+      cases hr : rec r.target d s with
+      | error e' =>
+        simp [hr] at h; subst h
+        exact herr _ _ _ _ hc hg hf hchain hr
+      | ok p =>
+        obtain ⟨s1, d1⟩ := p
+        simp only [hr] at h
+        have P := hrec _ _ _ _ _ hc hr
+        have hl1 : s1.status.length = s.status.length := P.steps.len
+        have hnot : r.target ∉ d := by simpa using P.notin (Or.inl hc)
+        have hkeep : ∀ a ∈ d, statusOf s1.status a = statusOf s.status a := by
+          intro a ha; exact P.frame a (by simpa using ha) (fun e => hnot (e ▸ ha))
+        have hsub : ∀ a ∈ d, a ∈ d1 := fun a ha => P.dsub a (by simpa using ha)
+        have hlen : d.length ≤ d1.length := by simpa using P.dlen
+        apply ErrConcl.back P.steps
+        apply ih d1 s1 e
+        · rw [hl1]; exact P.dgood (by simpa using hg)
+        · rw [hl1]; omega
+        · exact hsub x hx
+        · intro r' hr'; rw [hkeep x hx]; exact hrs r' (by simp [hr'])
+        · intro z hz hu
+          have hzd : z ∈ d := by
+            by_cases hzd : z ∈ d
+            · exact hzd
+            · have := P.dnew z hz (by simpa using hzd)
+              exact absurd (by rcases hu with h | h <;> simp [Pending, h]) this
+          rw [hkeep z hzd] at hu
+          rcases hch z hzd hu with rfl | p
+          · exact Or.inl rfl
+          · exact Or.inr (chain_transfer hkeep hsub (hkeep x hx) p)
+        · exact h
+    · simp only [hc, if_false] at h
+      exact ih d s e hg hf hx (fun r' hr' => hrs r' (by simp [hr'])) hch h
+
+theorem save_err (g : Graph) : ∀ (fuel x : Nat) (dep : Option (List Nat)) (s : St) (e : Err),
+    DGood s.status.length (dep.getD []) → fuel + (dep.getD []).length ≥ s.status.length + 1 →
+    (∀ d, dep = some d → statusOf s.status x = .created ∧ Chain g s.status d x) →
+    save g fuel x dep s = .error e → ErrConcl g s (match dep with | none => some x | some _ => none) e := by
+  intro fuel
+  induction fuel with
+  | zero =>
+    intro x dep s e hg hf _ _
+    have := nodup_bound _ _ hg.1 hg.2
+    omega
+  | succ fuel ih =>
+    intro x dep s e hg hf hdep h
+    simp only [save] at h
+    by_cases hcm : statusOf s.status x = .created ∨ statusOf s.status x = .modified
+    · simp only [hcm, if_true] at h
+      have hp : Pending (statusOf s.status x) := by
+        rcases hcm with h | h
+        · exact Or.inl h
+        · exact Or.inr (Or.inl h)
+      have hxlt : x < s.status.length := pending_lt hp
+      by_cases hin : inDep dep x = true
+      · simp [hin] at h
+        subst h
+        cases dep with
+        | none => simp [inDep] at hin
+        | some d =>
+          simp [inDep] at hin
+          obtain ⟨hc, hchain⟩ := hdep d rfl
+          refine ⟨by simp, by simp, ?_⟩
+          intro _ _
+          exact ⟨x, transGen_mono (fun a b e => e.2) (hchain x hin (Or.inl hc))⟩
+      · simp only [hin] at h
+        have hnot : x ∉ dep.getD [] := by
+          cases dep with
+          | none => simp
+          | some d => simpa [inDep] using hin
+        cases hr : saveRefs (fun y d' s' => save g fuel y (some d') s') (attrsToCheck g (statusOf s.status x) x)
+            (dep.getD [] ++ [x]) s with
+        | ok p => obtain ⟨s1, d1⟩ := p; simp [hr] at h
+        | error e' =>
+          simp [hr] at h; subst h
+          have hrec : RecSpec g (fun y d' s' => save g fuel y (some d') s') := by
+            intro y d s s' d' _ hy; exact save_spec g fuel y (some d) s s' d' hy
+          have herr : RecErr g fuel (fun y d' s' => save g fuel y (some d') s') := by
+            intro y d s e hc hg hf hch hy
+            have := ih y (some d) s e (by simpa using hg) (by simpa using hf)
+              (by intro d' hd'; simp at hd'; subst hd'; exact ⟨hc, hch⟩) hy
+            simpa using this
+          have hconcl : ErrConcl g s none e' := by
+            apply saveRefs_err hrec herr x _ _ _ _ ?_ ?_ (by simp) (fun r hr => hr) ?_ hr
+            · refine ⟨?_, ?_⟩
+              · rw [List.nodup_append]
+                refine ⟨hg.1, by simp, ?_⟩
+                intro a ha b hb; simp at hb; subst hb; intro e; exact hnot (e ▸ ha)
+              · intro z hz
+                rcases List.mem_append.mp hz with hz | hz
+                · exact hg.2 z hz
+                · simp at hz; subst hz; exact hxlt
+            · simp; omega
+            · intro z hz hu
+              rcases List.mem_append.mp hz with hz | hz
+              · right
+                cases dep with
+                | none => simp at hz
+                | some d =>
+                  obtain ⟨_, hchain⟩ := hdep d rfl
+                  simp at hz
+                  exact transGen_mono (fun a b e => ⟨by simp [e.1], e.2⟩) (hchain z hz hu)
+              · simp at hz; exact Or.inl hz
+          exact ⟨hconcl.fuel, fun y hy => by have := (hconcl.bad y hy).1; simp at this, hconcl.cyc⟩
+    · simp only [hcm, if_false] at h
+      by_cases hd : statusOf s.status x = .markedToDelete
+      · simp [hd] at h
+      · simp [hd] at h
+        subst h
+        cases dep with
+        | some d => exact absurd (Or.inl (hdep d rfl).1) hcm
+        | none =>
+          refine ⟨by simp, ?_, by simp⟩
+          intro y hy
+          simp at hy; subst hy
+          refine ⟨rfl, ?_⟩
+          intro hp
+          rcases hp with hp | hp | hp
+          · exact hcm (Or.inl hp)
+          · exact hcm (Or.inr hp)
+          · exact hd hp
+
+/-- failing `saveQueue`: never for lack of fuel; `badStatus` only for a queue entry that was not pending and not
+    written; a reported cycle exists in the start state -/
+theorem saveQueue_err (g : Graph) (fuel : Nat) : ∀ (q : List (Option Nat)) (s : St) (e : Err),
+    fuel ≥ s.status.length + 1 → saveQueue g fuel q s = .error e →
+      e ≠ .outOfFuel
+      ∧ (∀ y, e = .badStatus y → some y ∈ q ∧ ¬ Pending (statusOf s.status y) ∧ written s y = false)
+      ∧ (∀ c, e = .cycle c → ∃ y, Relation.TransGen (EdgeS g s.status) y y) := by
+  intro q
+  induction q with
+  | nil => intro s e _ h; simp [saveQueue] at h
+  | cons o q ih =>
+    intro s e hf h
+    cases o with
+    | none =>
+      simp only [saveQueue] at h
+      obtain ⟨h1, h2, h3⟩ := ih s e hf h
+      exact ⟨h1, fun y hy => ⟨by simp [(h2 y hy).1], (h2 y hy).2⟩, h3⟩
+    | some x =>
+      simp only [saveQueue] at h
+      by_cases hw : written s x = true
+      · simp only [hw, if_true] at h
+        obtain ⟨h1, h2, h3⟩ := ih s e hf h
+        exact ⟨h1, fun y hy => ⟨by simp [(h2 y hy).1], (h2 y hy).2⟩, h3⟩
+      · simp only [hw] at h
+        cases hr : save g fuel x none s with
+        | error e' =>
+          simp [hr] at h; subst h
+          have c := save_err g fuel x none s e' (by simp [DGood]) (by simpa using hf) (by simp) hr
+          refine ⟨c.fuel, ?_, c.cyc⟩
+          intro y hy
+          obtain ⟨h1, h2⟩ := c.bad y hy
+          simp at h1; subst h1
+          exact ⟨by simp, h2, by simpa using hw⟩
+        | ok p =>
+          obtain ⟨s1, d1⟩ := p
+          simp [hr] at h
+          have P := save_spec g _ _ _ _ _ _ hr
+          have hl1 : s1.status.length = s.status.length := P.steps.len
+          obtain ⟨h1, h2, h3⟩ := ih s1 e (by rw [hl1]; exact hf) h
+          refine ⟨h1, ?_, ?_⟩
+          · intro y hy
+            obtain ⟨hyq, hyp, hyw⟩ := h2 y hy
+            obtain ⟨ws, T⟩ := P.steps.trace
+            refine ⟨by simp [hyq], ?_, ?_⟩
+            · intro hp0
+              rcases T.status_cases y with hh | ⟨_, _, hm⟩
+              · exact hyp (hh ▸ hp0)
+              · have : written s1 y = true := by
+                  rw [written_iff]
+                  exact ⟨_, by rw [T.out_eq]; exact List.mem_append_right _ hm, stmtOf_obj _ _⟩
+                rw [this] at hyw; simp at hyw
+            · cases hws : written s y with
+              | false => rfl
+              | true => rw [written_mono P.steps y hws] at hyw; simp at hyw
+          · intro c hc
+            obtain ⟨y, p⟩ := h3 c hc
+            exact ⟨y, transGen_mono (fun a b e => EdgeS.back P.steps e) p⟩
 
 end PonyVerif.Model.SaveOrder
